@@ -35,7 +35,8 @@ theorem collect_append_ok (a b : Stream ε ρ) :
 
 /-- the three answers for one more row, when the predicate's value has the class `c` -/
 theorem keep_cons_of_truth (S : Sem χ ρ ν ε κ α) (Q : Quirks) (env : ρ) (p : χ) (r : ρ) (rows : List ρ)
-    (v : ν) (hv : S.eval LimEnv.unlimited.coll p env r = .ok v) :
+    (v : ν) (hv : S.eval LimEnv.unlimited.coll p env r = .ok v)
+    (hp : S.park LimEnv.unlimited.coll p env r = none) :
     keep S Q env p (r :: rows) =
       (match S.truth v with
        | .tt => (keep S Q env p rows).map (r :: ·)
@@ -43,7 +44,7 @@ theorem keep_cons_of_truth (S : Sem χ ρ ν ε κ α) (Q : Quirks) (env : ρ) (
        | .null => keep S Q env p rows
        | .other => if Q.filterNonBoolDrops then keep S Q env p rows else .error S.nonBool) := by
   rw [keep_cons, collect_append_ok]
-  simp only [filterRow, hv]
+  simp only [filterRow, hp, hv]
   cases S.truth v with
   | tt => simp only [collect]; unfold keep; cases collect _ <;> rfl
   | ff => simp only [collect]; unfold keep; cases collect _ <;> rfl
@@ -53,11 +54,21 @@ theorem keep_cons_of_truth (S : Sem χ ρ ν ε κ α) (Q : Quirks) (env : ρ) (
     | true => simp only [if_true, collect]; unfold keep; cases collect _ <;> rfl
     | false => simp [collect]
 
-theorem keep_cons_of_error (S : Sem χ ρ ν ε κ α) (Q : Quirks) (env : ρ) (p : χ) (r : ρ) (rows : List ρ)
-    (e : ε) (hv : S.eval LimEnv.unlimited.coll p env r = .error e) :
+theorem keep_cons_of_park (S : Sem χ ρ ν ε κ α) (Q : Quirks) (env : ρ) (p : χ) (r : ρ) (rows : List ρ)
+    (e : ε) (hp : S.park LimEnv.unlimited.coll p env r = some e) :
     keep S Q env p (r :: rows) = .error e := by
   rw [keep_cons, collect_append_ok]
-  simp [filterRow, hv, collect]
+  simp [filterRow, hp, collect]
+
+theorem keep_cons_of_error (S : Sem χ ρ ν ε κ α) (Q : Quirks) (env : ρ) (p : χ) (r : ρ) (rows : List ρ)
+    (e : ε) (hv : S.eval LimEnv.unlimited.coll p env r = .error e) :
+    ∃ e', keep S Q env p (r :: rows) = .error e' := by
+  cases hp : S.park LimEnv.unlimited.coll p env r with
+  | some e' => exact ⟨e', keep_cons_of_park S Q env p r rows e' hp⟩
+  | none =>
+    refine ⟨e, ?_⟩
+    rw [keep_cons, collect_append_ok]
+    simp [filterRow, hv, hp, collect]
 
 theorem guardT_unlimited_step (site : Site) (st : GuardSt) (x : Except ε ρ) :
     (guardT LimEnv.unlimited site).step st x = (⟨st.calls + 1, false⟩, [x]) := by
